@@ -191,6 +191,15 @@ static bool same_content(const Message & a, const Message & b, std::string & why
             if (a.FindString(an[n], i, &pa).IsError() || b.FindString(bn[n], i, &pb).IsError()) {why = "FindString failed"; return false;}
             if ((pa->Length() != pb->Length())||(memcmp(pa->Cstr(), pb->Cstr(), pa->Length()) != 0)) {why = "string item differs"; return false;}
          }
+         else if (Message::GetElementSize(ta) == 0)   // raw field (ByteBuffer items, possibly of length zero)
+         {
+            FlatCountableRef fa, fb;
+            if (a.FindFlat(an[n], i, fa).IsError() || b.FindFlat(bn[n], i, fb).IsError()) {why = "FindFlat failed"; return false;}
+            const ByteBuffer * ba = dynamic_cast<const ByteBuffer *>(fa());
+            const ByteBuffer * bb = dynamic_cast<const ByteBuffer *>(fb());
+            if ((ba == NULL)||(bb == NULL)) {why = "raw item is not a ByteBuffer"; return false;}
+            if ((ba->GetNumBytes() != bb->GetNumBytes())||((ba->GetNumBytes() > 0)&&(memcmp(ba->GetBuffer(), bb->GetBuffer(), ba->GetNumBytes()) != 0))) {why = "raw item bytes differ"; return false;}
+         }
          else
          {
             const void * da = NULL; const void * db = NULL; uint32 sa = 0, sb = 0;
